@@ -245,8 +245,8 @@ theorem routeOfPath_block (me : Nat) (nodes : List (Nat × NodeInfo)) (c : Cidr)
     (hn : n ≠ me) :
     let r := routeOfPath me nodes c (pre ++ [(c, ri)])
     r.dst = c ∧ r.dstNode = some n ∧ (r.types = 1 ∨ r.types = 5) ∧ r.localWorkload = false ∧
-    r.dstNodeIp = (match aget nodes n with | some ni => ni.v4Addr | none => 0) ∧
-    r.sameSubnet = (pathCross (pre ++ [(c, ri)]) && (aget nodes n).isSome && nodeInOurSubnet me nodes n) := by
+    r.dstNodeIp = (match aget nodes n with | some ni => ni.addrOf c.v6 | none => 0) ∧
+    r.sameSubnet = (pathCross (pre ++ [(c, ri)]) && (aget nodes n).isSome && nodeInOurSubnet c.v6 me nodes n) := by
   have hf := fold_plain me c pre hpre {}
   simp only at hf
   obtain ⟨f1, f2, f3, f4, f5⟩ := hf
